@@ -4,10 +4,14 @@ import (
 	"bytes"
 	"encoding/hex"
 	"encoding/json"
+	"errors"
 	"fmt"
+	"os"
+	"path/filepath"
 	"reflect"
 	"runtime"
 	"sort"
+	"strings"
 	"sync"
 	"time"
 
@@ -187,8 +191,10 @@ type bombResult struct {
 	Left     int    `json:"left"`
 	Alloc    uint64 `json:"alloc"`
 	GzipLen  int    `json:"gzip_len,omitempty"`
-	Ms       int64  `json:"ms"`    // wall time of the decode, informational only (never used for a verdict)
-	Stack    uint64 `json:"stack"` // runtime StackInuse after the decode (the goroutine stack does not shrink before the next GC)
+	Ms       int64  `json:"ms"`                // wall time of the decode, informational only (never used for a verdict)
+	Stack    uint64 `json:"stack"`             // runtime StackInuse after the decode (the goroutine stack does not shrink before the next GC)
+	Chain    int    `json:"chain,omitempty"`   // length of the errors.Unwrap chain of the returned error
+	ErrLen   int    `json:"err_len,omitempty"` // length of its message
 }
 
 func (s bombSpec) build() []byte {
@@ -243,7 +249,11 @@ func init() {
 		runtime.ReadMemStats(&ms)
 		res.Stack = ms.StackInuse
 		if err != nil {
-			res.Err = trunc2(err.Error(), 200)
+			msg := err.Error()
+			res.Err, res.ErrLen = trunc2(msg, 200), len(msg)
+			for e := err; e != nil; e = errors.Unwrap(e) {
+				res.Chain++
+			}
 		}
 		res.Left = buf.Len()
 		return res
@@ -413,6 +423,7 @@ func runBombs(c *mon.Ctx, reg *registry) {
 	for i := range outs {
 		outs[i].Class = "missing"
 	}
+	fullStderr := make([]string, len(cases))
 	var wg sync.WaitGroup
 	for g := 0; g < ngroups; g++ {
 		if len(inputs[g]) == 0 {
@@ -425,9 +436,18 @@ func runBombs(c *mon.Ctx, reg *registry) {
 			// (GOGC only spares the collector rescanning a gigabyte of stack over and over; allocation totals do not depend on it)
 			res := mon.RunBatch(c, "bomb", fmt.Sprintf("bombs-%d", g), inputs[g],
 				mon.BatchOpts{MemLimitMB: 6144, MaxProcs: 1, Timeout: 40 * time.Minute, Env: []string{"GOGC=400"}})
+			died := 0
 			for k, o := range res {
-				if k < len(index[g]) {
-					outs[index[g][k]] = o
+				if k >= len(index[g]) {
+					break
+				}
+				outs[index[g][k]] = o
+				if o.Class != "ok" && o.Class != "missing" {
+					// the j-th input that killed a child of this batch ended child run j: its complete stderr is on disk
+					if data, err := os.ReadFile(filepath.Join(c.Out, fmt.Sprintf("batch-bombs-%d", g), fmt.Sprintf("stderr-%d.txt", died))); err == nil {
+						fullStderr[index[g][k]] = string(data)
+					}
+					died++
 				}
 			}
 		}(g)
@@ -458,6 +478,7 @@ func runBombs(c *mon.Ctx, reg *registry) {
 	}
 	errSeries := map[string][]series{}
 	var slowest int64
+	var preallocNotes []map[string]any
 	for pass := 0; pass < 2; pass++ { // pass 0: depth + errchain, pass 1: prealloc (needs the errchain baseline)
 		for i, o := range outs {
 			bc := cases[i]
@@ -501,8 +522,15 @@ func runBombs(c *mon.Ctx, reg *registry) {
 					errAlloc[fmt.Sprintf("%s/%d", key, bc.spec.Depth)] = r.Alloc
 					errSeries[key] = append(errSeries[key], series{bc.spec.Depth, r.InputLen, r.Alloc, r.Ms})
 					wit["series"] = errSeries[key]
+					wit["error_chain_length"], wit["error_message_bytes"] = r.Chain, r.ErrLen
 					if r.Alloc > bound {
-						c.Violate("overalloc|nested-error-wrapping", wit)
+						// the named cause only when it is confirmed: the input is a nesting cut off at the bottom, the
+						// returned error is a %w chain at least as long as the nesting and its message grew with it
+						if r.Chain >= bc.spec.Depth && r.ErrLen >= 20*bc.spec.Depth {
+							c.Violate("overalloc|nested-error-wrapping", wit)
+						} else {
+							c.Violate("overalloc|truncated-nesting|"+bc.t.family, wit)
+						}
 					}
 					c.Sample("truncated-deep-input", map[string]any{"cycle": key, "levels": bc.spec.Depth, "input_bytes": r.InputLen, "allocated": r.Alloc})
 					continue
@@ -518,9 +546,10 @@ func runBombs(c *mon.Ctx, reg *registry) {
 					extra = r.Alloc - base
 				}
 				wit["allocated_with_honest_counts"], wit["extra_allocated_by_claimed_counts"] = base, extra
-				if extra > bound {
-					c.Violate("overalloc|nested-vector-prealloc", wit)
-				}
+				// Not a violation: every single preallocation stays within PreallocateLimit elements, the statement
+				// bounds a preallocation, not the sum over nested vectors. Counted in the evidence only.
+				preallocNotes = append(preallocNotes, map[string]any{"cycle": key, "levels": bc.spec.Depth, "input_bytes": r.InputLen,
+					"extra_allocated_by_claimed_counts": extra, "per_level": extra / uint64(bc.spec.Depth), "design_bound": bound, "above_design_bound": extra > bound})
 				c.Sample("prealloc-bomb", map[string]any{"cycle": key, "levels": bc.spec.Depth, "input_bytes": r.InputLen, "extra_allocated": extra})
 			case "depth":
 				if o.Class == "ok" {
@@ -546,7 +575,9 @@ func runBombs(c *mon.Ctx, reg *registry) {
 				if m, ok := minCrash[key]; !ok || bc.spec.Depth < m {
 					minCrash[key] = bc.spec.Depth
 				}
-				c.Violate(o.Class+"|recursive-decode|"+bc.t.family, wit)
+				path, fam := crashPath(fullStderr[i], bc.t)
+				wit["traceback_generated_decode_frames"] = strings.Count(fullStderr[i], "github.com/gotd/td/") // informational
+				c.Violate(o.Class+"|"+path+"|"+fam, wit)
 			}
 		}
 	}
@@ -555,6 +586,7 @@ func runBombs(c *mon.Ctx, reg *registry) {
 	c.Set("depth_bomb_max_surviving_depth", maxOK)
 	c.Set("depth_bomb_crashes_beyond_peer_limits", unreachable)
 	c.Set("truncated_deep_input_allocation", errSeries)
+	c.Set("nested_vector_prealloc_observations_not_violations", preallocNotes)
 	c.Set("bomb_slowest_decode_ms_informational", slowest)
 }
 
@@ -595,4 +627,34 @@ func allocCases(c *mon.Ctx, t *bombTemplate) []bombCase {
 		out = append(out, bombCase{t, s, "prealloc", "gzip+raw"})
 	}
 	return out
+}
+
+// crashPath classifies a child death from its complete traceback: "recursive-decode" and the
+// family only when the dying goroutine is inside generated Decode frames of the cycle's own
+// constructors with frames elided (deep recursion); anything else gets its own names so that a
+// known recursive-decode finding cannot hide a different defect.
+func crashPath(stderr string, t *bombTemplate) (path, family string) {
+	decodeFrames := 0
+	own := 0
+	for _, line := range strings.Split(stderr, "\n") {
+		if !strings.HasPrefix(line, "github.com/gotd/td/") {
+			continue
+		}
+		if strings.Contains(line, ").DecodeBare(") || strings.Contains(line, ").Decode(") || strings.Contains(line, ".Decode") {
+			decodeFrames++
+			for _, e := range t.cy.edges {
+				if strings.Contains(line, "(*"+e.from.typ.Name()+").DecodeBare(") {
+					own++
+				}
+			}
+		}
+	}
+	path, family = "other-path", "unattributed"
+	if decodeFrames >= 20 && strings.Contains(stderr, "frames elided") {
+		path = "recursive-decode"
+	}
+	if own >= 5 {
+		family = t.family
+	}
+	return path, family
 }
